@@ -15,8 +15,8 @@ that derives from CircuitBase and every method (own or inherited) it records
 
 A public method is a *mutator* when it (transitively) has a direct effect.  It
 is *covered* when it (transitively) appends to `self._gates` - num_gates
-changes - or a top-level `self.clear_storage()` statement follows its last
-mutating statement.  The covered table is emitted as coq/C07/Mutators.v.
+changes - or a top-level `self.clear_storage()` statement (plain, or in the
+`finally` clause of a top-level try) follows its last mutating statement.  The covered table is emitted as coq/C07/Mutators.v.
 """
 
 import ast
@@ -74,6 +74,16 @@ class MethodInfo:
                 and _is_self_attr(st.value.func, "clear_storage")
             ):
                 self.clear_top.append(st.lineno)
+            # try: ... finally: self.clear_storage()  - runs on every path, after everything in the try body
+            if isinstance(st, ast.Try):
+                for fs in st.finalbody:
+                    if (
+                        isinstance(fs, ast.Expr)
+                        and isinstance(fs.value, ast.Call)
+                        and isinstance(fs.value.func, ast.Attribute)
+                        and _is_self_attr(fs.value.func, "clear_storage")
+                    ):
+                        self.clear_top.append(fs.lineno)
         for node in ast.walk(fn):
             # assignments
             targets = []
